@@ -56,7 +56,7 @@ fn bases(tier: Tier) -> Vec<Base> {
     queries.push("tagging".to_owned());
     let mut v = Vec::new();
     for method in ["GET", "PUT", "DELETE", "HEAD"] {
-        for (pi, path) in ["/bkt/a", "/bkt/a%20b", "/bkt/%C3%A9", "/bkt/a+b", "/bkt/a/b", "/bkt"].into_iter().enumerate() {
+        for (pi, path) in ["/bkt/a", "/bkt/a%20b", "/bkt/%C3%A9", "/bkt/a+b", "/bkt/a/b", "/bkt", "/bkt/bkt/a", "/bkt/bkt"].into_iter().enumerate() {
             for vh in [false, true] {
                 for (qi, q) in queries.iter().enumerate() {
                     for amz in 0..8 {
